@@ -32,6 +32,7 @@ func runC14(c *Ctx) {
 	c14Escapers(c)
 	c14Forms(c)
 	c14IdpFlow(c)
+	c14History(c)
 	c14URLParse(c)
 	c14Locations(c)
 	c14Elements(c)
@@ -203,7 +204,7 @@ func c14Forms(c *Ctx) {
 			ImplSpecOK: specOK,
 		})
 	}
-	idpSrv, _ := samlidp.New(samlidp.Options{URL: mustURL("https://idp.example.com"), Key: fix.RSAKey("rsa_a"), Certificate: fix.Cert("rsa_a"), Store: &samlidp.MemoryStore{}, Logger: log.New(io.Discard, "", 0)})
+	idpSrv := newQuietIdpServer()
 	for i, hu := range hs {
 		hr := hs[(i*7+3)%len(hs)]
 		for kind := int64(0); kind <= 5; kind++ {
@@ -651,4 +652,12 @@ func c14Reflect(c *Ctx) {
 	c.Count(fmt.Sprintf("reflect/types_visited/%d", len(seen)))
 	c.Add(g, &Case{Key: map[string]string{"op": "location_bearing_types"}, Input: map[string]any{"root": "EntityDescriptor, EntitiesDescriptor"},
 		Obs: map[string]any{"types_with_location": names, "unmarshalers": []bool{u1, u2}}, Term: emit.Bool(good)})
+}
+
+func newQuietIdpServer() *samlidp.Server {
+	s, err := samlidp.New(samlidp.Options{URL: mustURL("https://idp.example.com"), Key: fix.RSAKey("rsa_a"), Certificate: fix.Cert("rsa_a"), Store: &samlidp.MemoryStore{}, Logger: log.New(io.Discard, "", 0)})
+	if err != nil {
+		panic(err)
+	}
+	return s
 }
